@@ -9,6 +9,7 @@
    (Foot.doc); [run isdigit int_of fx footnote_sort footnote_transition d] is the whole pipeline. *)
 From Coq Require Import List NArith ZArith Bool Permutation Sorted.
 From MV Require Import Base.PyStr Base.Res Refs.RUtil Gen.Transforms Refs.Foot Refs.FootOps Refs.FootProofs Gen.FootSrc Refs.FootSrcProofs.
+From MV Require Import Refs.DocutilsOps Gen.DocutilsFootSrc Refs.DocutilsSrcProofs.
 Import ListNotations.
 Open Scope N_scope.
 
@@ -225,6 +226,37 @@ Theorem C11_dup_and_unreferenced_src : forall isdigit int_of fx, O_footnotes fx 
                /\ (tm = [] \/ tm = [WTooMany]).
 Proof. exact warnings_exact_src. Qed.
 Print Assumptions C11_dup_and_unreferenced_src.
+
+(* ---- docutils' Footnotes transform, translated from the INSTALLED docutils source ------------------
+   Gen/DocutilsFootSrc.v is regenerated on every run from docutils/transforms/references.py (apply,
+   number_footnotes, number_footnote_references, resolve_footnotes_and_citations, resolve_references;
+   symbolize_footnotes locked by hash) over the log state of Refs/DocutilsOps.v.
+   Proved: the numbering method computes exactly the transcription Foot.number_footnotes - same labels
+   (the `while True` loop is next_label with the fuel of C11_total), same back-references, reference ids and
+   texts (after_auto) - and the branch that names an anonymous footnote is never taken.
+   PARTIAL: the other methods are tied to the transcription by running both, extracted, on every enumerated
+   registry (corr_docutils_only), not by proof; O_footnotes_xform therefore still names the transcription. *)
+Theorem C11_docutils_number_src_partial : forall ds start,
+  number_footnotes_src ds start
+  = match number_footnotes (ds_regs ds) (g_autofootnotes (ds_regs ds)) start with
+    | Ok outs => Ok (after_auto ds outs, next_start start outs)
+    | Raise e => Raise e
+    end.
+Proof. exact number_footnotes_src_spec. Qed.
+Print Assumptions C11_docutils_number_src_partial.
+
+(* symbol footnotes ([*]_) and anonymous auto-numbered footnotes ([#]_) cannot come from Markdown: a label such
+   as [^*] is an ordinary name.  On the render model every registered footnote carries exactly its label as
+   name, is filed under the manual or the auto-numbered registry, and is registered as a name (so docutils'
+   symbol registry stays empty and its anonymous branch is dead); gen/c11_src.py additionally fails when the
+   package builds footnote nodes anywhere else or calls note_symbol_footnote*. *)
+Theorem C11_only_named_footnotes : forall isdigit d,
+  let g := fst (render_doc isdigit regs0 d) in
+  Forall (fun f => fn_names f = [f_label f] /\ In (f_label f) (g_nameids g)) (g_autofootnotes g ++ g_footnotes g) /\
+  Forall (fun f => f_auto f = true /\ isdigit (f_label f) = false) (g_autofootnotes g) /\
+  Forall (fun f => f_auto f = false /\ isdigit (f_label f) = true) (g_footnotes g).
+Proof. exact only_named_footnotes. Qed.
+Print Assumptions C11_only_named_footnotes.
 
 (* the order of the transforms, from the regenerated priorities and get_transforms lists *)
 Theorem C11_transform_order :
